@@ -328,6 +328,24 @@ def emit_fn(data, it, ckey, C, tlog, anchors_used, canary=False):
                 end = st["end"]
                 # include a trailing `;` if the statement has one right after
                 ed.insert(end, "\n" + text, order=0)
+        elif parts[0].startswith("before_return@"):
+            # k-th `return` whose innermost enclosing loop is loop N (or `top`: outside every loop): robust against
+            # returns being added / removed elsewhere in the function
+            where = parts[0].split("@", 1)[1]
+            k = int(parts[1])
+            def innermost(r_):
+                best = None
+                for l_ in f["loops"]:
+                    if l_["start"] <= r_["start"] and r_["end"] <= l_["end"]:
+                        if best is None or (l_["end"] - l_["start"]) < (best["end"] - best["start"]):
+                            best = l_
+                return "top" if best is None else "loop%d" % best["ord"]
+            cands = [r_ for r_ in f["returns"] if innermost(r_) == where]
+            if k < 1 or k > len(cands):
+                raise Undecided("lost anchor: return #%d in %s of %s (there are %d)" % (k, where, it["path"], len(cands)))
+            r = cands[k - 1]
+            ed.insert(r["start"], "{ " + text, order=0)
+            ed.insert(r["end"], " }", order=-1)
         elif parts[0] == "before_return":
             k = int(parts[1])
             rets = {r["ord"]: r for r in f["returns"]}
